@@ -21,6 +21,34 @@ CLAIMS = {
    text="TLC explores every interleaving of main thread, collector and workers of ParRange.tla (one action per hook point; days 0..6, parallelism 1..4, threshold 0..2) for safety (result = sequential map, no send to a gone receiver, no duplicate) and termination under weak fairness; the real prayer_times_dt_rng_block is run hooked (parallelism override 1..64, 0..6000 days, thresholds 0..400, 8 delay profiles at every send/recv/spawn/drop point) and every run's totally ordered event log is validated by TLC as a behaviour of the same spec, all invariants evaluated in every state, result compared with the sequential API",
    note="std mpsc/thread::scope semantics as modelled; the hooks' ordering lock makes send and drop(tx) atomic with their log entries; worker Sender drops are unlogged and composed into the recv-Err step; hangs are detected by a 25 s watchdog",
    tech="TLA+ spec (ParRange) + TLC model checking incl. liveness + TLC trace validation of hooked concurrent executions", ref="§5 C15"),
+ "C05": dict(
+   text="TLC checks on PrayerDay.tla (staged pipeline model, every policy x validity pattern) that a finished call has seven entries incl. Dhuhr and no flag without a policy; every recorded public call (|lat|<=60, named methods + custom angles, 4 roundings, weather) is validated by TLC: seven well-formed entries, the conventionally computed ones ordered around Dhuhr within 12 h, no flag under policy None",
+   note="'conventionally computed' = reported unflagged and also reported by the same call under policy None; order measured as signed clock distance from Dhuhr",
+   tech="TLA+ spec (PrayerDay) + TLC model checking + TLC trace validation of recorded public calls", ref="§5 C05"),
+ "C07": dict(
+   text="TLC explores PrayerDay.tla (Panic is a state; 15 policies x 24 validity patterns x interval/offset/rounding choices x substitute-latitude and good-day environments) for NoPanic/termination and GoodDay.tla for termination of the search; the pre-fix unwrap (D2) is shown reachable with LegacyUnwrap; 25k (quick) / 1.5M (thorough) guarded public calls over the whole input product incl. the poles are validated: seven well-formed entries, Dhuhr present, no panic, < 20 s",
+   note="bounded time = 20 s per call watchdog (slowest observed call logged in evidence); inputs sampled, not enumerated",
+   tech="TLA+ spec (PrayerDay, GoodDay) + TLC model checking + TLC trace validation of guarded calls", ref="§5 C07"),
+ "C08": dict(
+   text="TLC checks the C08 clauses (Fajr/Isha-only policies leave the other four alone; 'invalid' policies keep valid Fajr/Isha; identity when all exist; unflagged = conventional) as invariants of PrayerDay.tla over every policy x validity pattern; each recorded policy run is paired with the policy-None run of the same input and validated by TLC with exact equality",
+   note="quantified over the 8 named methods as the property states (interval consumers with angle-based methods only; half-of-night exempt from the flag clause); Imsaak is governed by C12",
+   tech="TLA+ spec (PrayerDay) + TLC model checking + TLC trace validation of paired public calls", ref="§5 C08"),
+ "C09": dict(
+   text="TLC checks GoodDay.tla (one action per probe) against the property-level choice 'closest good date, earlier on ties' for all validity patterns over offsets -6..6 and shows the pre-fix bound (D3) violates it; for recorded nearest-good-day calls (every day of whole years at |lat| 49..64 both hemispheres + random twilight-edge cases) TLC redoes the choice from the logged conventional results of the neighbouring dates and demands equality to the second and the extreme flags",
+   note="|lat| <= 64; neighbours are logged out to the first good date on either side",
+   tech="TLA+ spec (GoodDay, PrayerDayTrace) + TLC model checking + TLC trace validation", ref="§5 C09"),
+ "C10": dict(
+   text="the policy writers and the interval rewrite are specified in PrayerDayDefs.tla and model-checked (interval-defined Fajr/Isha keep their definition, replaced => flagged); for recorded calls under the 10 policies C10 names TLC recomputes the result from the logged raw conventional times at the site and at the substitute latitude in integer seconds and demands agreement within 3 s and exact flags",
+   note="|lat| <= 60, natural zone, Shurooq < Dhuhr < Maghrib inside the civil day (property precondition)",
+   tech="TLA+ spec (PrayerDayDefs) + TLC model checking + TLC trace validation", ref="§5 C10"),
+ "C11": dict(
+   text="TLC checks Rounding.tla: the implementation-shaped conversion (negative-hour wrap loop, split, carry, final wrap) equals the property-level function for every second from -25 h to +50 h x 4 modes x 2 classes (thorough; stride 7 in quick) with 9 invariants; the real code is swept through the seconds of the day with fractional-minute offsets (every second in thorough) and each mode's output must equal RoundClock of the unrounded output",
+   note="exact comparison: both runs share the float path up to the rounding switch",
+   tech="TLA+ spec (Rounding) + TLC model checking + TLC trace validation of an every-second sweep", ref="§5 C11"),
+ "C12": dict(
+   text="TLC checks the frame conditions on PrayerDay.tla (an offset reaches only its prayer, Imsaak follows Fajr; interval definitions; extreme Fajr => extreme Imsaak an interval earlier; LegacyImsaak shows D7); recorded pairs of public calls differing in exactly one parameter (each offset key, each interval, +-1 degree angles, school, weather incl. absent-vs-default) and policy runs are validated by TLC",
+   note="frame conditions under policy None; shifts to +-1 s; 'unchanged' exactly; the Imsaak offset key is held to 'no effect'",
+   tech="TLA+ spec (PrayerDay) + TLC model checking + TLC trace validation of paired public calls", ref="§5 C12"),
 }
 NA_REASON = "check under construction in this round (DESIGN.md §8 build order); not yet claimed"
 
